@@ -762,3 +762,25 @@ uint8_t* growth_good(ctl_grow_t* g, size_t need) {
     }
     return g->buf;
 }
+
+/* ---- R47 per-call reset of tables that outlive the call (rules/callstate.py) */
+static __thread const uint8_t* ctl_match_table[64];
+static __thread const uint8_t* ctl_match_table2[64];
+static __thread uintptr_t ctl_table_lo;
+static void ctl_table_begin_bad(const uint8_t* src) {
+    if (ctl_table_lo < (uintptr_t)src) memset(ctl_match_table, 0, sizeof(ctl_match_table));     /* cleared on one path only */
+    ctl_table_lo = (uintptr_t)src;
+}
+static void ctl_table_begin_good(void) { memset(ctl_match_table2, 0, sizeof(ctl_match_table2)); }
+size_t callstate_bad(const uint8_t* src, size_t n) {
+    size_t hits = 0;
+    ctl_table_begin_bad(src);
+    for (size_t i = 0; i + 1 < n; i++) { unsigned h = src[i] & 63; if (ctl_match_table[h]) hits++; ctl_match_table[h] = src + i; }
+    return hits;
+}
+size_t callstate_good(const uint8_t* src, size_t n) {
+    size_t hits = 0;
+    ctl_table_begin_good();
+    for (size_t i = 0; i + 1 < n; i++) { unsigned h = src[i] & 63; if (ctl_match_table2[h]) hits++; ctl_match_table2[h] = src + i; }
+    return hits;
+}
